@@ -42,7 +42,10 @@ CONFIGS = [
     {"name": "no-esc-in-add", "esc": "\\", "multi": "%", "single": "_", "add": "", "filter": "", "quote": "'"},     # D7
     {"name": "nosingle", "esc": "\\", "multi": "*", "single": None, "add": "\\", "filter": "", "quote": '"'},
     {"name": "nomulti", "esc": "\\", "multi": None, "single": "?", "add": "\\", "filter": "", "quote": '"'},
+    # conditional quoting: quote unless the plain form is a bare token (str_quote_pattern + negation)
+    {"name": "cond-quote", "esc": "\\", "multi": "*", "single": "?", "add": "\\", "filter": "", "quote": '"', "bare": "A-Za-z0-9_.*?\\\\"},
 ]
+CFG_BY_NAME = {c["name"]: c for c in CONFIGS}
 FIELD_CFGS = [
     {"name": "q-esc", "escape": "\\", "chars": " \\", "escapeQuote": True, "quote": "'", "always": True},
     {"name": "noquote-esc", "escape": "\\", "chars": " \\.", "escapeQuote": True, "quote": None, "always": False},
@@ -71,6 +74,13 @@ def gen_cases(tier, seed, gen, effort):
     rsrcs += [s for s in srcs if len(s) > 6][: (200 if not thorough else 2000)]
     for s in rsrcs:
         cases.append({"kind": "regex", "src": s, "custom": rnd.choice(["", "", "/", " ", "-\""])})
+    # the regex form as the backend embeds it ({regex} in eq / case-sensitive / unbound-value templates, add_escaped_re)
+    for s in rsrcs:
+        if "/" in s or len(s) <= 2 or rnd.random() < 0.15:
+            cases.append({"kind": "regex", "src": s, "custom": "/", "path": rnd.choice(["eq", "cased", "kw"])})
+    for s in ["a/b", "/", "http://x/*", "\\/", "a/*/b?", "*/", "/?"]:
+        for path in ("eq", "cased", "kw"):
+            cases.append({"kind": "regex", "src": s, "custom": "/", "path": path})
     for s in srcs:
         if len(s) <= 4 or rnd.random() < 0.05:
             cases.append({"kind": "slice", "src": s})
@@ -107,7 +117,8 @@ def backend_for(cfg):
     if cfg["name"] not in _backends:
         attrs = {"str_quote": cfg["quote"], "escape_char": cfg["esc"], "wildcard_multi": cfg["multi"],
                  "wildcard_single": cfg["single"], "add_escaped": cfg["add"], "filter_chars": cfg["filter"],
-                 "str_quote_pattern": None, "backend_processing_pipeline": ProcessingPipeline()}
+                 "str_quote_pattern": re.compile("^[" + cfg["bare"] + "]*$") if cfg.get("bare") else None,
+                 "str_quote_pattern_negation": True, "backend_processing_pipeline": ProcessingPipeline()}
         _backends[cfg["name"]] = type("B_" + re.sub(r"\W", "_", cfg["name"]), (TextQueryTestBackend,), attrs)()
     return _backends[cfg["name"]]
 
@@ -123,6 +134,37 @@ def field_backend_for(cfg):
                  "backend_processing_pipeline": ProcessingPipeline()}
         _backends[key] = type("F_" + re.sub(r"\W", "_", cfg["name"]), (TextQueryTestBackend,), attrs)()
     return _backends[key]
+
+
+def regex_backend():
+    from sigma.backends.test import TextQueryTestBackend
+    from sigma.processing.pipeline import ProcessingPipeline
+    if "re" not in _backends:
+        attrs = {"eq_expression": "{field}~/{regex}/", "startswith_expression": None, "endswith_expression": None, "contains_expression": None,
+                 "wildcard_match_expression": None, "case_sensitive_match_expression": "{field}~~/{regex}/",
+                 "case_sensitive_startswith_expression": None, "case_sensitive_endswith_expression": None, "case_sensitive_contains_expression": None,
+                 "unbound_value_str_expression": "_~/{regex}/", "add_escaped_re": "/", "add_escaped": ":", "re_escape": (), "re_escape_char": "\\", "re_escape_escape_char": False,
+                 "convert_or_as_in": False, "convert_and_as_in": False, "backend_processing_pipeline": ProcessingPipeline()}
+        _backends["re"] = type("B_regex_templates", (TextQueryTestBackend,), attrs)()
+    return _backends["re"]
+
+
+PATH_PREFIX = {"eq": "f~/", "cased": "f~~/", "kw": "_~/"}
+
+
+def read_regex_literal(q, prefix):
+    """read `prefix` + a /-delimited regex literal the way a target language does: backslash takes the next character, the first bare '/' ends it"""
+    if not q.startswith(prefix):
+        return None
+    i, body = len(prefix), []
+    while i < len(q):
+        c = q[i]
+        if c == "\\" and i + 1 < len(q):
+            body.append(q[i:i + 2]); i += 2; continue
+        if c == "/":
+            return "".join(body), q[i + 1:]
+        body.append(c); i += 1
+    return "".join(body), None
 
 
 def subjects_for(src, maxlen=4):
@@ -143,14 +185,42 @@ def run_impl(case):
             s = SigmaString(case["src"])
             plain = s.to_plain()
             out = {"outcome": "ok", "parts": parts_json(s), "plain": cps(plain), "reparse": parts_json(SigmaString(plain)), "convs": []}
+            # the same value as the converter obtains it: by stripping the wildcards of "*src*", "src*", "*src"
+            derived = [("", s)]
+            for how, mk in (("mid", lambda: SigmaString("*" + case["src"] + "*")[1:-1]), ("head", lambda: SigmaString(case["src"] + "*")[:-1]),
+                            ("tail", lambda: SigmaString("*" + case["src"])[1:])):
+                try:
+                    d = mk()
+                    if parts_json(d) == out["parts"]:      # (slicing re-parses: other shapes are the slice kind's subject)
+                        derived.append((how, d))
+                except Exception:
+                    pass
             for cfg in CONFIGS:
                 b = backend_for(cfg)
-                try:
-                    quoted = b.decide_string_quoting(s)
-                    out["convs"].append({"cfg": cfg["name"], "quoted": quoted, "text": cps(b.convert_value_str(s, ConversionState()))})
-                except Exception as e:
-                    out["convs"].append({"cfg": cfg["name"], "err": outcome_of_exception(e)})
+                for how, v in derived:
+                    if how and not (cfg.get("bare") or cfg["name"] in ("std-dq", "noquote")):
+                        continue
+                    try:
+                        quoted = b.decide_string_quoting(v)
+                        out["convs"].append({"cfg": cfg["name"], "how": how, "quoted": quoted, "text": cps(b.convert_value_str(v, ConversionState()))})
+                    except Exception as e:
+                        out["convs"].append({"cfg": cfg["name"], "how": how, "err": outcome_of_exception(e)})
             return out
+        if k == "regex" and case.get("path"):
+            from sigma.rule import SigmaRule
+            path = case["path"]
+            det = {"eq": {"f": case["src"]}, "cased": {"f|cased": case["src"]}, "kw": [case["src"]]}[path]
+            rule = SigmaRule.from_dict({"title": "t", "logsource": {"category": "c"}, "detection": {"s": det, "condition": "s"}})
+            q = regex_backend().convert_rule(rule)[0]
+            lit = read_regex_literal(q, PATH_PREFIX[path])
+            if lit is None:
+                return {"outcome": "ok", "other_form": q}
+            text, rest = lit
+            if rest != "":
+                return {"outcome": "ok", "terminated": True, "query": q, "text": cps(text)}
+            subs = subjects_for(case["src"])
+            rx = re.compile(text)
+            return {"outcome": "ok", "text": cps(text), "query": q, "subjects": subs, "matches": [rx.fullmatch(x) is not None for x in subs]}
         if k == "regex":
             s = SigmaString(case["src"])
             r = s.to_regex(case["custom"])
@@ -179,7 +249,8 @@ def make_request(case, impl, gen):
         return {"op": "ping"}
     if k == "str":
         convs = []
-        for cfg, r in zip(CONFIGS, impl["convs"]):
+        for r in impl["convs"]:
+            cfg = CFG_BY_NAME[r["cfg"]]
             convs.append({"cfg": {"esc": cps(cfg["esc"]) if cfg["esc"] is not None else None,
                                   "multi": cps(cfg["multi"]) if cfg["multi"] is not None else None,
                                   "single": cps(cfg["single"]) if cfg["single"] is not None else None,
@@ -187,6 +258,8 @@ def make_request(case, impl, gen):
                           "quote": cps(cfg["quote"]), "quoted": bool(r.get("quoted", False)),
                           "impl": r.get("text")})
         return {"op": "sstr.case", "src": cps(case["src"]), "convs": convs}
+    if k == "regex" and ("other_form" in impl or impl.get("terminated")):
+        return {"op": "ping"}
     if k == "regex":
         return {"op": "sstr.regex", "src": cps(case["src"]), "custom": cps(case["custom"]), "impl": impl["text"],
                 "subjects": [cps(x) for x in impl["subjects"]]}
@@ -223,7 +296,10 @@ def judge(case, impl, reply):
             return Verdict("violation", f"plain form of {src!r} is {uncps(impl['plain'])!r} which re-parses to {show(impl['reparse'])!r} instead of {show(impl['parts'])!r}",
                            nt, key, finding=fid, tags=tags + ("plain-lossy",))
         drift = None
-        for cfg, r, d in zip(CONFIGS, impl["convs"], reply["convs"]):
+        for r, d in zip(impl["convs"], reply["convs"]):
+            cfg = CFG_BY_NAME[r["cfg"]]
+            if r.get("how"):
+                cfg = dict(cfg, name=cfg["name"] + " (value obtained by stripping wildcards: " + r["how"] + ")")
             if "err" in r:
                 merr = isinstance(d["model"], dict)
                 if r["err"].startswith("other:"):
@@ -233,6 +309,9 @@ def judge(case, impl, reply):
                 continue
             if isinstance(d["model"], dict):
                 return Verdict("violation", f"{src!r} under {cfg['name']}: rendered as {uncps(r['text'])!r} although the configuration lacks the wildcard ({d['model']['err']})", nt, key, tags=tags)
+            if cfg.get("bare") and not r["quoted"] and re.search("[^" + cfg["bare"] + "]", uncps(r["text"])):
+                return Verdict("violation", (f"{src!r} under {cfg['name']}: emitted without quotes as {uncps(r['text'])!r} although it contains a character "
+                                             f"that ends a bare token (quoting is decided by str_quote_pattern)"), nt, key, tags=tags + (f"cfg:{cfg['name']}",))
             if d["implReadOk"] is not True:
                 fid = "D7" if not d["escInSet"] else None
                 return Verdict("violation", (f"{src!r} under {cfg['name']}: emitted {uncps(r['text'])!r}, which the target reads as "
@@ -243,7 +322,14 @@ def judge(case, impl, reply):
         if impl["plain"] != reply["plain"]:
             drift = f"plain form differs from model for {src!r}"
         return Verdict("drift" if drift else "ok", drift or "", nt, key, tags=tags)
+    if k == "regex" and "other_form" in impl:
+        return Verdict("ok", "", False, key, tags=tags + ("unjudged:other-query-form",))
+    if k == "regex" and impl.get("terminated"):
+        return Verdict("violation", (f"{src!r} ({case['path']} template with {{regex}} between '/' delimiters, add_escaped_re='/'): the query {impl['query']!r} "
+                                     f"ends its regex literal early: read as /{uncps(impl['text'])}/"), nt, key, tags=tags + (f"path:{case['path']}",))
     if k == "regex":
+        if case.get("path"):
+            key = (k, src, case["path"]); tags = tags + (f"path:{case['path']}",)
         for x, m, g in zip(impl["subjects"], impl["matches"], reply["glob"]):
             if m != g:
                 return Verdict("violation", f"regex form {uncps(impl['text'])!r} of {src!r}: re.fullmatch({x!r}) = {m} but the wildcard pattern {'matches' if g else 'does not match'} it", nt, key, tags=tags)
